@@ -100,6 +100,12 @@ def run_case(spec, j):
       Mref[a, b] = s
       Mabs[a, b] = sa
   j.close('C02.M=LtL', M, Mref, 4 * EPS * max(k, 1) * Mabs + 1e-300, det0)
+  # ... at every call, whatever the caller did to an earlier answer
+  M_scribble = est.get_mahalanobis_matrix()
+  M_scribble[...] = -7.0
+  j.close('C02.M=LtL', est.get_mahalanobis_matrix(), Mref,
+          4 * EPS * max(k, 1) * Mabs + 1e-300,
+          dict(det0, after='the caller overwrote the matrix returned before'))
   nM = max(np.abs(M).max(), 1e-300)
   j.close('C02.M-symmetric', M, M.T, 4 * EPS * nM, det0)
   lam = np.linalg.eigvalsh((M + M.T) / 2) if d else np.zeros(0)
